@@ -92,6 +92,10 @@ def run(ctx: core.Ctx) -> None:
                                            (21, 1730.0, "const"), (51, 1111.0, "none")]):
         cfgs2.append({"kind": "single", "table": f"synth_z:0.0:{rows}", "nx": 20, "pf": pf, "pi": 8000.0, "grid": "geometric", "nt": 200,
                       "tend": 60.0, "sched": sched, "seed": 9100 + j})
+    # stepwise-decreasing schedules held as a column of a frame that was put in time order without reset_index (Series, permuted labels)
+    for j, (tab_, nx_, grid_) in enumerate([("synth_z:0.0002", 12, "quadratic"), ("pvt_gas", 20, "uniform"), ("synth_z:0.0", 8, "random")]):
+        cfgs2.append({"kind": "single", "table": tab_, "nx": nx_, "pf": 1500.0 + 400 * j, "pi": 8000.0, "grid": grid_, "nt": 60 + 20 * j,
+                      "tend": 2.0, "sched": "stepdown", "sched_box": "series", "seed": 9200 + j})
     raws2 = sc.trace_runs(ctx, cfgs2, "C03", want_resid=False, want_rf=True)
     ctx.extra["repo_tests"] = sc.repo_test_traces(ctx, "C03", ["tests/flow/test_reservoir.py", "tests/forecast/test_forecast.py", "tests/test_plots.py"], False)
     if not ctx.quick:   # the documentation notebooks, cell by cell (those that need the network stop at that cell)
